@@ -144,6 +144,155 @@ theorem readings_after_return (n : Nat) (t : TS) (hr : Trace.Reach (osys n) t) (
   simp only [shows, beq_self_eq_true, Bool.true_and, beq_iff_eq] at hsh
   exact hsh.symm
 
+/-- "attempt k's function has returned": it is finished in the model, or its return has been seen and not yet counted -/
+def Returned (t : TS) (k : Nat) : Prop := t.core.ths[k]? = some .finished ∨ ∃ c, (k, c) ∈ t.retd
+
+/-- along any run, an attempt whose function has returned either had already returned at the start or the run shows its `finish` event -/
+theorem returned_needs_finish_event (n : Nat) (a b : TS) (tr : List Ev) (h : Trace.Run (osys n) a tr b) (k : Nat)
+    (hb : Returned b k) : Returned a k ∨ ∃ c, Ev.finish k c ∈ tr := by
+  induction h with
+  | nil s => exact Or.inl hb
+  | silent s s' s'' x tr hm hs hst _ ih =>
+    rcases ih hb with h1 | h1
+    · -- the silent step cannot make an attempt "returned" out of nothing
+      left
+      cases x with
+      | launchFirst =>
+        simp only [osys, TraceHedge.step] at hst
+        split at hst
+        · simp only [Hedge.step] at hst
+          split at hst
+          · rename_i hc
+            simp only [Option.map_some, Option.some.injEq] at hst; subst hst
+            rcases h1 with h1 | h1
+            · left
+              by_cases hk : k = s.core.launched
+              · subst hk; simp [List.getElem?_set] at h1
+              · simpa [List.getElem?_set, Ne.symm hk] using h1
+            · exact Or.inr h1
+          · simp at hst
+        · cases hst
+      | launchHedge => simp [osys, silent] at hs
+      | timer =>
+        simp only [osys, TraceHedge.step, Hedge.step] at hst
+        split at hst
+        · simp only [Option.map_some, Option.some.injEq] at hst; subst hst; exact h1
+        · simp at hst
+      | recv =>
+        simp only [osys, TraceHedge.step, Hedge.step] at hst
+        split at hst
+        · split at hst
+          · simp only [Option.map_some, Option.some.injEq] at hst; subst hst; exact h1
+          · simp at hst
+        · simp at hst
+      | count k' c' =>
+        simp only [osys, TraceHedge.step] at hst
+        split at hst
+        · rename_i hmem
+          simp only [Hedge.step] at hst
+          split at hst
+          · simp only [Option.map_some, Option.some.injEq] at hst; subst hst
+            by_cases hk : k = k'
+            · subst hk; exact Or.inr ⟨c', by simpa using hmem⟩
+            · rcases h1 with h1 | ⟨c, h1⟩
+              · left; simpa [List.getElem?_set, Ne.symm hk] using h1
+              · exact Or.inr ⟨c, List.mem_of_mem_erase h1⟩
+          · simp at hst
+        · cases hst
+      | trySend k' c' f' =>
+        simp only [osys, TraceHedge.step, Hedge.step] at hst
+        split at hst
+        · split at hst <;> (simp only [Option.map_some, Option.some.injEq] at hst; subst hst; exact h1)
+        · simp at hst
+      | fnRet k' c' => simp [osys, silent] at hs
+      | enter k' => simp [osys, silent] at hs
+      | callerRet k' => simp [osys, silent] at hs
+      | seeCancelled k' => simp [osys, silent] at hs
+      | settled => simp [osys, silent] at hs
+    · exact Or.inr h1
+  | vis s s' s'' x e tr hm hs hsh hst _ ih =>
+    rcases ih hb with h1 | ⟨c, h1⟩
+    · cases x with
+      | fnRet k' c' =>
+        simp only [osys, TraceHedge.step] at hst
+        split at hst
+        · simp only [Option.some.injEq] at hst; subst hst
+          have he : e = Ev.finish k' c' := by
+            cases e <;> simp [osys, shows] at hsh
+            obtain ⟨rfl, rfl⟩ := hsh; rfl
+          rcases h1 with h1 | ⟨c, h1⟩
+          · exact Or.inl (Or.inl h1)
+          · simp only [List.mem_cons, Prod.mk.injEq] at h1
+            rcases h1 with ⟨rfl, rfl⟩ | h1
+            · exact Or.inr ⟨c, by rw [he]; exact List.mem_cons_self⟩
+            · exact Or.inl (Or.inr ⟨c, h1⟩)
+        · cases hst
+      | launchHedge =>
+        simp only [osys, TraceHedge.step] at hst
+        split at hst
+        · simp only [Hedge.step] at hst
+          split at hst
+          · simp only [Option.map_some, Option.some.injEq] at hst; subst hst
+            rcases h1 with h1 | h1
+            · left; left
+              by_cases hk : k = s.core.launched
+              · subst hk; simp [List.getElem?_set] at h1
+              · simpa [List.getElem?_set, Ne.symm hk] using h1
+            · exact Or.inl (Or.inr h1)
+          · simp at hst
+        · cases hst
+      | enter k' => simp only [osys, TraceHedge.step] at hst; split at hst <;> simp_all
+      | callerRet k' => simp only [osys, TraceHedge.step] at hst; split at hst <;> simp_all
+      | seeCancelled k' => simp only [osys, TraceHedge.step] at hst; split at hst <;> simp_all
+      | settled => simp only [osys, TraceHedge.step] at hst; split at hst <;> simp_all
+      | launchFirst => simp [osys, silent] at hs
+      | timer => simp [osys, silent] at hs
+      | recv => simp [osys, silent] at hs
+      | count k' c' => simp [osys, silent] at hs
+      | trySend k' c' f' => simp [osys, silent] at hs
+    · exact Or.inr ⟨c, List.mem_cons_of_mem _ h1⟩
+
+/-- **on traces**: in every trace the model can show — hence in every recorded run the acceptor accepts — the attempt whose value the
+caller is handed has had its function return before (its `finish` event precedes the `ret` event) -/
+theorem returned_value_after_its_finish (n : Nat) (t1 t2 : List Ev) (k : Nat) (c : TS)
+    (h : Trace.Run (osys n) (osys n).init (t1 ++ Ev.callerRet k :: t2) c) : ∃ cc, Ev.finish k cc ∈ t1 := by
+  obtain ⟨b, hb1, hb2⟩ := Trace.Run.split_append t1 (Ev.callerRet k :: t2) h
+  obtain ⟨b2, hb3, _⟩ := Trace.Run.split_cons hb2
+  obtain ⟨s, s', x, htau, hx, hsil, hsh, hst, _⟩ := Trace.Run.single_vis hb3
+  have hrun : Trace.Run (osys n) (osys n).init t1 s := by
+    have := Trace.Run.append hb1 (Trace.Run.of_tau htau (Trace.Run.nil s))
+    simpa using this
+  have hreach : Trace.Reach (osys n) s := Trace.Run.reach hrun Trace.Reach.init
+  cases x with
+  | callerRet k' =>
+    have hk : k' = k := by
+      have h0 : shows s (.callerRet k') (.callerRet k) = true := hsh
+      simpa [shows] using h0
+    subst hk
+    have hss : s' = s := by simp only [osys, TraceHedge.step] at hst; split at hst <;> simp_all
+    rw [hss] at hst
+    have hfin := (returned_value_was_produced n s hreach k' hst).1
+    rcases returned_needs_finish_event n (osys n).init s t1 hrun k' (Or.inl hfin) with h0 | h0
+    · -- initially every attempt is idle and nothing has returned
+      exfalso
+      rcases h0 with h0 | ⟨cc, h0⟩
+      · simp only [osys, Hedge.init] at h0
+        by_cases hkn : k' < n
+        · simp [hkn] at h0
+        · simp [hkn] at h0
+      · simp [osys] at h0
+    · exact h0
+  | launchFirst => simp [osys, shows] at hsh
+  | launchHedge => simp [osys, shows] at hsh
+  | timer => simp [osys, shows] at hsh
+  | recv => simp [osys, shows] at hsh
+  | fnRet k' c' => simp [osys, shows] at hsh
+  | count k' c' => simp [osys, shows] at hsh
+  | trySend k' c' f' => simp [osys, shows] at hsh
+  | enter k' => simp [osys, shows] at hsh
+  | seeCancelled k' => simp [osys, shows] at hsh
+  | settled => simp [osys, shows] at hsh
+
 /-- non-vacuity, decided by running the acceptor (maxHedges = 1): the hedge wins and the first attempt is cancelled — accepted; the
 caller handed the value of an attempt that has not finished, a third attempt, or a winner that reads cancelled — rejected -/
 example : (Trace.accepts (osys 2) 30 [.enter 0, .hedge, .enter 1, .finish 1 true, .callerRet 1, .seeCancelled 0 true, .seeCancelled 1 false, .finish 0 false]).map (·.isEmpty) = some false := by decide
